@@ -339,6 +339,10 @@ impl LocalNetworkSimulation<'_> {
             .try_as_scmp()
             .context("error classifying SCION packet for SCMP response")?;
 
+        if !request.verify_checksum() {
+            bail!("SCMP checksum does not verify");
+        }
+
         match request.scmp().message() {
             ScmpMessageView::EchoRequest(scmp_echo_request) => {
                 tracing::trace!("Handling SCMP echo request");
